@@ -344,7 +344,16 @@ func (p *Parser) parseCallArguments() []Expression {
 func (p *Parser) ParseUpdateExpression() *UpdateStatement {
 	stmt := &UpdateStatement{Token: p.curToken}
 
+	// an update expression is ONE statement (a sequence of SET / REMOVE / ADD / DELETE clauses): a second
+	// statement means that something preceded the first clause keyword or followed the last action
 	for p.curToken.Type != EOF {
+		if stmt.Expression != nil {
+			msg := fmt.Sprintf("Syntax error; unexpected token: %q", p.curToken.Literal)
+			p.errors = append(p.errors, msg)
+
+			return stmt
+		}
+
 		stmt.Expression = p.parseExpression(precedenceValueLowset)
 
 		p.nextToken()
@@ -416,6 +425,11 @@ func (p *Parser) parseActions(token Token) []Expression {
 
 		otherUpdate := p.parseUpdateActionExpression()
 		if updateExpression, ok := otherUpdate.(*UpdateExpression); ok {
+			if len(updateExpression.Expressions) == 0 && len(p.errors) == 0 {
+				msg := fmt.Sprintf("Syntax error; %s clause without an action", updateExpression.TokenLiteral())
+				p.errors = append(p.errors, msg)
+			}
+
 			actions = append(actions, updateExpression.Expressions...)
 		}
 	}
